@@ -171,6 +171,8 @@ def run(tier, seed):
                                        "trace": {"observed": me[5]}})
     finally:
         shutil.rmtree(tmp, ignore_errors=True)
+    unparsable_peer_cases(res)
+    res.rule += " | plus peers whose address is not an IP literal, through the real protocol with logging configured as start_server configures it (INFO, IP hashing on / off)"
     # through the command line: `python -m nauyaca serve --config <file>` with four access-control sections
     import livetls
     livetls.run_cli_policies(res, tier)
@@ -185,3 +187,54 @@ def run(tier, seed):
                  "subprocess.Popen, against Model/Reload.v; live: serve ROOT --reload --reload-dir D --config[=| ]dev-reload.toml with deny- and "
                  "allow-loopback policies, request from 127.0.0.1")
     return res
+
+
+def unparsable_peer_cases(res):
+    """ "an address that cannot be parsed is refused with status 53 like any denied one": through the real GeminiServerProtocol with an
+    AccessControl chain, the peer name being whatever a transport may report (a host name, an empty string, a scoped literal, nothing),
+    and with logging configured the way start_server configures it (the request log and its processors sit on the path of every
+    response).  Without a chain such a peer is served."""
+    import asyncio, serverdrv as sd
+    import nauyaca.protocol
+    from nauyaca.utils.logging import configure_logging
+    from nauyaca.server.protocol import GeminiServerProtocol
+    from nauyaca.server.middleware import AccessControl, AccessControlConfig, MiddlewareChain
+    from nauyaca.protocol.response import GeminiResponse
+    import structlog, logging
+    async def one(peer, with_chain):
+        acts = []
+        chain = MiddlewareChain([AccessControl(AccessControlConfig(allow_list=["10.0.0.0/8"], default_allow=False))]) if with_chain else None
+        p = GeminiServerProtocol(lambda r: GeminiResponse(20, "text/plain", "served"), chain, None)
+        t = sd.FakeTransport(acts, peer, None)
+        escaped = None
+        try:
+            p.connection_made(t); p.data_received(b"gemini://h.example/x\r\n")
+        except Exception as e: escaped = type(e).__name__
+        for i in range(60):
+            if t.closed: break
+            await asyncio.sleep(0 if i < 20 else 0.002)
+        if p.timeout_handle: p.timeout_handle.cancel()
+        return escaped, b"".join(a[1] for a in acts if a[0] == "w"), t.closed
+    async def go():
+        loop = asyncio.get_running_loop(); loop.set_exception_handler(lambda l, c: None)
+        out = []
+        for peer in (("peer.invalid", 40000), ("", 0), ("fe80::1%eth0", 1), ("10.0.0.300", 5), None, ("10.1.2.3", 9), ("::ffff:10.0.0.1", 9)):
+            for with_chain in (True, False):
+                out.append((peer, with_chain, await one(peer, with_chain)))
+        return out
+    for hash_ips in (True, False):
+        try:
+            configure_logging(log_level="INFO", hash_ips=hash_ips)
+            outs = asyncio.run(go())
+        finally:
+            structlog.reset_defaults(); logging.disable(logging.NOTSET)
+        for peer, with_chain, (escaped, wire, closed) in outs:
+            res.evaluations += 1; res.count("unparsable-peer"); res.nontriv(("unparsable-peer", str(peer), with_chain, hash_ips))
+            admitted_by_policy = peer is not None and peer[0] in ("10.1.2.3",)
+            want = b"20 " if (not with_chain or admitted_by_policy) else b"53 "
+            if escaped or not closed or not wire.startswith(want):
+                res.violations.append({"clause": "an address that cannot be parsed is refused with status 53 like any denied one (and served when no policy is configured) - whatever the logging configuration",
+                                       "signature": "C09:unparsable-peer",
+                                       "case": {"peer_name_reported_by_the_transport": list(peer) if peer else None, "access_control": "allow 10.0.0.0/8, default deny" if with_chain else "none",
+                                                "logging": "configure_logging(INFO, hash_ips=%s)" % hash_ips},
+                                       "trace": {"exception_out_of_the_protocol": escaped, "client_received": wire[:60].decode("latin-1"), "closed": closed, "expected_status": want.decode().strip()}})
